@@ -680,13 +680,14 @@ def nonnull_invariant(check: Check, mods: list, rule: str = "NONNULL-INVARIANT")
 
 
 def reserved_names(check: Check, repo: Repo, rule: str = "RESERVED-NAME") -> None:
-    from rules.language_rules import _BoolFold
+    from rules.language_rules import norm_facts
 
     check.rule(
         rule,
         "SchemaValidationContext.validate_name is shared by types, fields, arguments, enum values, input fields and "
-        "directives: its reserved-name report depends on nothing but `name.startswith('__')` - the test that guards the "
-        "report, folded over all valuations of its atoms, equals that atom. The one exemption (the introspection types "
+        "directives: its reserved-name report depends on nothing but `name.startswith('__')` - the must-facts at the "
+        "report (locals expanded, constants and plain `is None` presence tests aside) are exactly that one atom, and no "
+        "normal path on which it holds reaches the exit without the report. The one exemption (the introspection types "
         "themselves) is made by the caller for *type objects* (is_introspection_type(type_) in validate_types), never by "
         "name inside validate_name, where it would also exempt a field or argument called `__Type`",
     )
@@ -694,32 +695,37 @@ def reserved_names(check: Check, repo: Repo, rule: str = "RESERVED-NAME") -> Non
     fn = ci.methods().get("validate_name")
     if fn is None:
         raise AnalysisError("SchemaValidationContext.validate_name not found")
-    guards = [i for i in walk_body(fn) if isinstance(i, ast.If) and any(
-        isinstance(c, ast.Call) and isinstance(c.func, ast.Attribute) and c.func.attr == "startswith" and c.args
-        and isinstance(c.args[0], ast.Constant) and c.args[0].value == "__" for c in ast.walk(i.test))]
-    if len(guards) != 1:
-        raise AnalysisError("validate_name: reserved-name test not found")
-    g = guards[0]
-    reports = [c for s in g.body for c in ast.walk(s) if isinstance(c, ast.Call) and call_name(c).split(".")[-1] == "report_error"]
-    fold = _BoolFold()
-    fold.discover = True
-    fold.ev(g.test, {}, {})
-    fold.discover = False
-    atoms = list(fold.atoms)
-    key = next((a for a in atoms if "startswith('__')" in a), None)
-    import itertools as _it
+    reports = [c for c in walk_body(fn) if isinstance(c, ast.Call) and call_name(c).split(".")[-1] == "report_error"
+               and any(isinstance(x, ast.Constant) and isinstance(x.value, str) and "__" in x.value for x in ast.walk(c))]
+    if len(reports) != 1:
+        raise AnalysisError("validate_name: reserved-name report not found")
+    cfg = CFG(fn)
+    facts = norm_facts(FactFlow(cfg).facts_at(reports[0]))
+    key = next(((t, p) for t, p in facts if t.endswith(".startswith('__')")), None)
+    extra = sorted((t, p) for t, p in facts if (t, p) != key and t not in ("True", "False") and not t.endswith(" is None"))
+    ok1 = key is not None and key[1] is True and not extra
+    check.ob(rule, reports[0], "validate_name: the reserved-name report depends on startswith('__') alone", ok1,
+             f"facts at the report: {sorted(facts)}" if ok1 else
+             (f"the report additionally requires {extra} - an element named like an exempted name is no longer reported" if key else "not guarded by startswith('__')"))
+    # conversely: with the atom true the report is not by-passed
+    rn = set(cfg.node_for_expr(reports[0]))
 
-    bad = None
-    if key is None or not reports:
-        bad = "the report is not guarded by a plain startswith('__') atom"
-    else:
-        for bits in _it.product((False, True), repeat=len(atoms)):
-            val = dict(zip(atoms, bits))
-            if bool(fold.ev(g.test, {}, val)) != val[key]:
-                bad = f"with {[a for a in atoms if val[a]] or 'no atom'} true the report is {'made' if fold.ev(g.test, {}, val) else 'skipped'}"
-                break
-    check.ob(rule, g, "validate_name: reserved-name report <=> name.startswith('__')", bad is None,
-             f"guard `{unparse(g.test)}`" if bad is None else f"guard `{unparse(g.test)}`: {bad} - an element named like an exempted name is no longer reported")
+    def follow(a, b, label) -> bool:
+        if not no_exc(a, b, label):
+            return False
+        if label and label[0] == "cond" and unparse(label[1]).endswith(".startswith('__')") and label[2] is False:
+            return False
+        if label and label[0] == "cond" and isinstance(label[1], ast.Constant) and bool(label[1].value) != label[2]:
+            return False  # infeasible edge of a constant test
+        return True
+
+    starts = [n for n in cfg.nodes if n.kind == "test" and n.ast is not None and unparse(n.ast).endswith(".startswith('__')")]
+    by_pass = None
+    for st in starts:
+        by_pass = by_pass or cfg.find_path(st, lambda nd: nd is cfg.exit, follow=follow, avoid=lambda nd: nd in rn)
+    check.ob(rule, fn, "validate_name: a name that starts with '__' is always reported", by_pass is None and bool(starts),
+             "no normal path from the true edge of the test to the exit avoids the report" if by_pass is None and starts else
+             ("the report can be skipped: " + cfg.describe_path(by_pass)[-160:] if by_pass else "startswith('__') test not found"))
     vt = ci.methods().get("validate_types")
     calls = [c for c in walk_body(vt) if isinstance(c, ast.Call) and call_name(c).split(".")[-1] == "validate_name"] if vt is not None else []
     if not calls:
